@@ -6,6 +6,7 @@ KNOWN_TEXT = {
     "derive_through_blocklisted_opaque": "derive_through_blocklisted_opaque: a type that is blocklisted (hide annotation / file) and also opaque is used by value; the reference to it is opaque, so constrain_type answers Yes from the layout and the container derives Copy/Clone/Debug through the blocklisted type (C10_fails_on_blocklisted_and_opaque); rustc rejects the derive against a derive-less user definition",
     "blob_padding_overaligned": "blob_padding_overaligned: helpers::blob is asked (by StructLayoutTracker::pad_field) for K padding bytes with alignment min(field align, 8) not dividing K and answers __BindgenOpaqueArray8<[u8; K]>, whose size rounds up to a multiple of 8 (C10_fails_on_overaligned_padding): a struct with a member aligned above 8 after a misaligned offset (struct W { char pre; struct O m0; } with O aligned(16)) is too large and the bindings fail their own layout assertion; observed size equals the model's",
     "opaque_empty_base_counted": "opaque_empty_base_counted: a C++ record derives from an empty record that --opaque-type (or the opaque annotation) makes opaque; the sizedness analysis answers NonZeroSized for the 1-byte opaque blob, so the derived record gets a `_base` member although the C++ compiler gives the empty base no storage: the derived record is too large and bindgen's own `Size of` assertion fails to compile (E0080)",
+    "blocklisted_base_not_named": "blocklisted_base_not_named: a record that derives from a blocklisted type is emitted with padding in place of the base: the layout is kept but the use does not name the blocklisted type ('every use of a blocklisted type still names it')",
     "blocklist_file_hides_namespace": "blocklist_file_hides_namespace: --blocklist-file blocklists the namespace item first opened in that file, so declarations of the same namespace made in other files (neither blocklisted nor in the file) are no longer generated; equals the model's walk (C10_fails_on_namespace_first_opened_in_blocklisted_file)",
 }
 
